@@ -859,6 +859,26 @@ func rulesC16(e *Engine, r *Report) {
 			func(l LabelSet) bool { return !l.Has("finished") || l.Has("persisted") }, "Cache.Persist after the last finish()")
 		r.Min("R16.14", "returns of "+name, n, 2)
 	}
+	// ---------------------------------------------------------------- R16.15
+	r.Rule("R16.15", "no retry loop outlives an immediate stop: every loop of the sender that backs off and tries again (it calls applyErrorBackoff) asks shouldStopNow() in each pass and leaves on yes - a loop that relies on its caller's check is a loop the caller never gets back from while the peer stays away")
+	{
+		n := 0
+		for _, fn := range e.FuncsIn("client") {
+			for _, in := range e.findInstrs(fn, "call(client.(*Broker).applyErrorBackoff)(p0, §)", false) {
+				hdr, backs := innermostLoop(in)
+				if hdr == nil {
+					continue
+				}
+				n++
+				// from the loop header to this back-off call, a pass has tested shouldStopNow (and went on only on `no`)
+				cls := labeler(C("!call(client.(*Broker).shouldStopNow)(p0)", "askedStop"))
+				res := e.Flow(fn, FlowOpts{Classify: cls, Target: anyOf(backs)})
+				e.judge(r, "R16.15", fmt.Sprintf("%s: the retry loop around applyErrorBackoff (%s) asks shouldStopNow in every pass", e.ShortName(fn), e.InstrPos(in)), fn, res,
+					func(l LabelSet) bool { return l.Has("askedStop") }, "!shouldStopNow() on the way round the loop")
+			}
+		}
+		r.Min("R16.15", "retry loops with a back-off in package client", n, 4)
+	}
 }
 
 func shortPred(p string) string {
